@@ -840,8 +840,12 @@ def rule_subscripts(rep, idx, rid='R16'):
     shapes = [('x', lambda X: X.var('a')), ('c', lambda X: X.num(5)), ('x+c', lambda X: X.binop('PLUS', X.var('a'), X.num(3))),
               ('c+x', lambda X: X.binop('PLUS', X.num(3), X.var('a'))), ('x-c', lambda X: X.binop('MINUS', X.var('a'), X.num(3))),
               ('c-x', lambda X: X.binop('MINUS', X.num(7), X.var('a'))), ('x+y', lambda X: X.binop('PLUS', X.var('a'), X.var('b')))]
-    for mode in ('read', 'write'):
+    rhs_shapes = {'write': ('v', lambda X: X.var('v')), 'write(v+b)': ('v+b', lambda X: X.binop('PLUS', X.var('v'), X.var('b'))),
+                  'write(~v)': ('~v', lambda X: X.unop('NOT', X.var('v'))), 'write(v<b)': ('v<b', lambda X: X.binop('LS', X.var('v'), X.var('b')))}
+    for mode in ('read', 'write', 'write(v+b)', 'write(~v)', 'write(v<b)'):
         for name, mk in shapes:
+            if mode not in ('read', 'write') and name not in ('x', 'c', 'x+c'):
+                continue
             M = CodeGenModel(idx, 'A')
             for n in ('a', 'b', 'v'):
                 M.symbol(n, 'VAR', 'f')
@@ -849,11 +853,12 @@ def rule_subscripts(rep, idx, rid='R16'):
             index = M.X.const_prop(mk(M.X))
             orig_index = index
             key = '%s arr[%s]' % (mode, name)
+            rhs_ref = rhs_shapes[mode][1](M.X) if mode != 'read' else None
             try:
                 if mode == 'read':
                     M.X.visit_post(M.expr_visitor('A'), M.X.sub('arr', index))
                 else:
-                    st = M.I.construct('xcmp::AssStatement', [None, M.X.sub('arr', index), M.X.var('v')])
+                    st = M.I.construct('xcmp::AssStatement', [None, M.X.sub('arr', index), run_pipeline(M, rhs_shapes[mode][1](M.X))])
                     M.X.visit_post(M.stmt_visitor(), st)
             except NeedSplit as e:
                 rep.undecided(rid, key, 'not uniform: %s' % e, where)
@@ -875,9 +880,10 @@ def rule_subscripts(rep, idx, rid='R16'):
                         bad = 'for %s the template reads %r, expected element %d of arr' % (env, areg, want_k)
                         break
                 else:
+                    want_v = xmodel.wrap32(M.X.meaning(rhs_ref, env))
                     hit = [s_ for s_ in stores if isinstance(s_[0], tuple) and s_[0][0] == 'mem']
-                    if len(hit) != 1 or xmodel.wrap32(hit[0][0][2]) != want_k or hit[0][1] != 42:
-                        bad = 'for %s the template stores %r, expected v to element %d of arr' % (env, hit, want_k)
+                    if len(hit) != 1 or xmodel.wrap32(hit[0][0][2]) != want_k or hit[0][1] != want_v:
+                        bad = 'for %s the template stores %r, expected %s = %d to element %d of arr' % (env, hit, rhs_shapes[mode][0], want_v, want_k)
                         break
             rep.add(rid, key, bad is None, where, bad or 'template %s' % [t for t, _ in M.instrs()])
 
